@@ -21,8 +21,8 @@ CONFIG = {
     "quick": {"flavours": ["real", "complex"], "shards": 8, "examples": 150, "min_nontrivial": 200, "budget_s": 100},
     "thorough": {"flavours": ["real", "complex"], "shards": 16, "examples": 2500, "min_nontrivial": 5000, "budget_s": 3000},
 }
-REQUIRED_CLASSES = {"quick": ["spin-major", "heterogeneous-spins", "label-order!=insertion", "physics", "relabelled"],
-                    "thorough": ["spin-major", "heterogeneous-spins", "label-order!=insertion", "physics", "relabelled"]}
+REQUIRED_CLASSES = {"quick": ["spin-major", "heterogeneous-spins", "label-order!=insertion", "physics", "relabelled", "chi-container"],
+                    "thorough": ["spin-major", "heterogeneous-spins", "label-order!=insertion", "physics", "relabelled", "chi-container"]}
 
 
 @st.composite
@@ -135,11 +135,26 @@ def execute(case, ctx):
     N = M.n_modes(sites)
     ns = (0, 3, -2)
     runs = []
+    # index permutation predicted by the documented ordering rule (only used to address the same physical 2PGF component in
+    # both runs; it is verified against pomerol's own tables below)
+    tabA_m = M.index_model(mdlA["sites"], mdlA["order_spins"]); tabB_m = M.index_model(mdlB["sites"], mdlB["order_spins"])
+    idxB_m = {t: i for i, t in enumerate(tabB_m)}
+    permA2B = [idxB_m[(mp[l], o, s)] for (l, o, s) in tabA_m]
+    chikeys = [tuple(p[:2] + p[:2]) for p in case["pairs"][:2]] + [tuple(list(p[:2])[::-1] + list(p[:2])[::-1]) for p in case["pairs"][:2]] + [
+        (p[1], p[0], p[0], p[1]) for p in case["pairs"][:1]]
+    chikeys = sorted(set(chikeys))
     for mdl, bg in ((mdlA, bog), (mdlB, [])):
         q = list(bg) + [("eigen", "eigen"), ("averages", "averages"), ("ops", "ops 0")]
         for i in range(N):
             for j in range(N):
                 q.append((("g", i, j), "gf ct %d %d n 3 %d %d %d" % ((i, j) + ns)))
+        if N <= 3:
+            # two-particle container filled by default ("all components"): which key is stored and which is an alias depends on
+            # the numerical order of the indices, i.e. on site names and ordering mode
+            q.append(("c4n", "c4 new")); q.append(("c4p", "c4 prepareAll 0")); q.append(("c4c", "c4 computeAll 1 0 0"))
+            for key in chikeys:
+                kk = key if mdl is mdlA else tuple(permA2B[x] for x in key)
+                q.append((("chi", key), "c4 eval %d %d %d %d 3 0 0 0 1 -2 0 -1 0 2" % kk))
         run = ModelRun(ctx, mdl, q)
         if run.died() and (max(run.ans.by_line) if run.ans.by_line else 0) < run.sc.tags["storage"]:
             return crash_result(run, classes + ["crash"])
@@ -182,6 +197,22 @@ def execute(case, ctx):
                 bound = 2 * ref.G_drop_bound(i, j, z) + 1e-10 * (1 + abs(x))
                 if not abs(x - y) <= bound:
                     return fail("G_%d%d(n=%d) = %r but relabelled G_%d%d = %r" % (i, j, n, x, perm[i], perm[j], y), "gf")
+    if N <= 3:
+        from common import chi_floor
+        if perm != permA2B:
+            # the statement does not fix the ordering rule: if the library orders differently the pre-computed addresses
+            # are unusable and the two-particle comparison is skipped (counted), not failed
+            classes.append("ordering-rule-differs")
+        for key in ([] if perm != permA2B else chikeys):
+            va = A.q(("chi", key))["v"]; vb = B.q(("chi", key))["v"]
+            for x, y in zip(va, vb):
+                if not (isinstance(x, list) and isinstance(y, list)):
+                    return fail("2PGF container evaluation threw for component %r" % (key,), "exc:c4")
+                x = cx(x); y = cx(y)
+                if not abs(x - y) <= 1e-8 * (abs(x) + abs(y)) + 2 * chi_floor(beta, N) + 1e-9:
+                    return fail("two-particle component %r = %r, but %r in the relabelled / re-ordered model" % (key, x, y), "chi")
+        if perm == permA2B:
+            classes.append("chi-container")
     classes.append("physics")
     if case["newlabels"] != labs:
         classes.append("relabelled")
